@@ -543,7 +543,34 @@ def exec_window(case, obs):
                       "window voxels do not follow the in-place edit of the volume", cls)
         vol *= 2.0
         vol += 1000.0
+    # enforce_shape: the result keeps the volume's own shape - the window's voxels at their own place, the volume mean elsewhere
+    ge = obs.lib("extract_subvolume", cryomap.extract_subvolume, vol, np.array(cen, dtype=float), tuple(box), enforce_shape=True)
+    if obs.check(getattr(ge, "shape", None) == tuple(vshape), "extract_subvolume", "enforce-shape-is-volume-shape", f"{getattr(ge, 'shape', None)} vs {vshape}", cls):
+        in_win = np.ones(vshape, dtype=bool)
+        for ax in range(3):
+            idx = np.arange(vshape[ax])
+            sel = (idx >= start[ax]) & (idx < start[ax] + box[ax])
+            in_win &= sel.reshape([-1 if a == ax else 1 for a in range(3)])
+        obs.check(bool(np.array_equal(ge[in_win], vol[in_win])), "extract_subvolume", "enforce-shape-window-voxels-kept",
+                  lambda: f"volume {vshape} centre {cen} box {box}: {int((ge[in_win] != vol[in_win]).sum())} window voxels differ from the volume", cls)
+        obs.check(bool(np.allclose(ge[~in_win], vol.mean(), rtol=1e-12, atol=0)) if (~in_win).any() else True, "extract_subvolume",
+                  "enforce-shape-elsewhere-is-volume-mean", lambda: f"volume {vshape} centre {cen} box {box}: values outside the window {np.unique(ge[~in_win])[:3].tolist()}, mean {float(vol.mean())!r}", cls)
     if kind == "inside":
+        # padding back: the window sits in the middle of the new box (equal margins up to one voxel), the rest is the fill
+        for fill in (None, -2.5):
+            pd_ = obs.lib("pad", cryomap.pad, want.copy(), tuple(vshape), fill)
+            okp = getattr(pd_, "shape", None) == tuple(vshape)
+            if okp:
+                fv = want.mean() if fill is None else fill
+                found = False
+                for off in itertools.product(*[sorted({(m - n) // 2, -((n - m) // 2)}) for m, n in zip(vshape, box)]):
+                    sl = tuple(slice(o, o + n) for o, n in zip(off, box))
+                    rest = np.ones(vshape, dtype=bool)
+                    rest[sl] = False
+                    if np.array_equal(pd_[sl], want) and (not rest.any() or np.allclose(pd_[rest], fv, rtol=1e-12, atol=0)):
+                        found = True
+                okp = found
+            obs.check(okp, "pad", "pad-centres-volume-in-fill", lambda: f"window {box} padded to {vshape} with fill {fill}: not the window centred (margins equal up to one voxel) in a box of the fill value", cls)
         cr = obs.lib("crop", cryomap.crop, vol, tuple(box), None, tuple(cen))
         obs.check(getattr(cr, "shape", None) == tuple(box) and bool(np.array_equal(cr, want)), "crop", "crop-equals-window",
                   lambda: f"volume {vshape} centre {cen} box {box}: crop returns shape {getattr(cr, 'shape', None)}", cls)
@@ -736,7 +763,7 @@ def families(tier, seed):
         Family("place-one", one_cases, exec_place_one, describe=d_one, expect=("stamped-voxel-set", "stamp-colour", "background-kept")),
         Family("place-list", list_cases, exec_place_list, describe=d_list, expect=("stamped-voxel-set", "stamp-colour", "later-overwrites-earlier")),
         Family("place-20", many_cases, exec_place_many, describe=d_many, expect=("stamped-voxel-set", "stamp-colour")),
-        Family("window", win_cases, exec_window, describe=d_win, expect=("window-voxels", "outside-is-volume-mean", "crop-equals-window")),
+        Family("window", win_cases, exec_window, describe=d_win, expect=("window-voxels", "outside-is-volume-mean", "crop-equals-window", "enforce-shape-window-voxels-kept", "enforce-shape-elsewhere-is-volume-mean", "pad-centres-volume-in-fill")),
         Family("symmetrize-exact", sym_exact, exec_sym_exact, describe=d_syme,
                expect=("equals-mean-of-n-rotated-copies", "independent-of-uninitialised-memory", "total-density-kept")),
         Family("symmetrize-blob", sym_blob, exec_sym_blob, describe=d_symb,
